@@ -177,3 +177,66 @@ func VH_C09_Block() {
 	}
 	p.shutdown()
 }
+
+// VH_C09_PingSlot: keep-alive on, the peer's answers withheld. After N-1
+// Sends the connection stays silent until the keep-alive ping goes out: the
+// ping is a DATA packet and takes the last slot of the window, so the next
+// Send must block until an acknowledgement frees a slot (released answers),
+// exactly as if user data had filled the window.
+func VH_C09_PingSlot() {
+	n := uint8([4]int{1, 2, 3, 20}[vIntRange("n_idx", 0, vParam("maxn_idx", 3))])
+	p := vConnect(n, 0, WithStaticResendTimeout(time.Second), WithKeepalivePing(5*time.Second, 3*time.Second))
+	vAssert(p.cliErr == nil && p.srvErr == nil, "clean handshake failed")
+	if p.cliErr != nil || p.srvErr != nil {
+		return
+	}
+	pings, datas := 0, 0
+	p.c2s.monitor = func(b []byte) {
+		if len(b) >= 4 && b[0] == DATA {
+			if b[3] == TRUE {
+				pings++
+			} else {
+				datas++
+			}
+		}
+	}
+	p.s2c.hold = true // no ACK and no pong reaches the client
+	go func() {
+		for {
+			if _, err := p.srv.Recv(); err != nil {
+				return
+			}
+		}
+	}()
+	for i := 0; i < int(n)-1; i++ {
+		vAssert(p.cli.Send([]byte{byte(i)}) == nil, "one of the first N-1 Sends failed")
+	}
+	// wait for the ping (the send loop may be busy resending for a while)
+	for i := 0; i < 200 && pings == 0; i++ {
+		time.Sleep(50 * time.Millisecond)
+	}
+	if pings == 0 {
+		// the connection gave up or never pinged within 10 s: not this
+		// harness's subject (C13 covers keep-alive timing)
+		vReach("no-ping")
+		p.shutdown()
+		return
+	}
+	done := make(chan error, 1)
+	go func() { done <- p.cli.Send([]byte{0xee}) }()
+	select {
+	case <-done:
+		vAssert(false, "Send returned although N packets (N-1 messages and the ping) are unacknowledged")
+	case <-time.After(500 * time.Millisecond):
+	}
+	vReach("ping-blocked")
+	p.s2c.release()
+	select {
+	case err := <-done:
+		vReach("ping-unblocked")
+		vAssert(err == nil, "blocked Send failed after the acknowledgements arrived")
+	case <-time.After(30 * time.Second):
+		vAssert(false, "Send still blocked after the acknowledgements were released")
+	}
+	p.shutdown()
+}
